@@ -13,7 +13,7 @@ vocabulary in `Model.Resolve.AttrSpec`. Helper lemmas: `Proofs/C19*.lean`.
 Statements only; every theorem quantifies over ALL inputs (no bound on the length of
 op sequences, on keys or on values).
 -/
-import DepsDev.Proofs.C19DepText
+import DepsDev.Proofs.C19DepQuoted
 
 namespace DepsDev.Props.C19
 open DepsDev DepsDev.Gen DepsDev.Model.Resolve DepsDev.Model.Resolve.Attr DepsDev.Model.Resolve.AttrText
@@ -294,12 +294,21 @@ theorem c19_dep_text_quoted_witnesses :
       | _ => false) = true) := by
   decide
 
-/-- PARTIAL (hypothesis `depPlain`: no value has to be written quoted, i.e. every
-value is non-empty, free of white space and does not start with `"`): the round trip
-holds. `depPlain` implies `depTextOK`, whose negation is the classifier of
-F-C19-deptest-quoted; the sets in between (exactly one quoted value, written last,
-`depQuotedOK`) are covered by the oracle and the correspondence only. -/
+/-- PARTIAL (hypothesis `depTextOK`: every value that must be written quoted — empty,
+starting with `"`, or containing white space — is the LAST item written, does not end in
+a backslash, does not start with a space and has no two adjacent spaces; its negation is
+the classifier of F-C19-deptest-quoted. Additional hypothesis `depQuotedAscii`, a limit
+of the proof and not a finding class: that quoted value is an ASCII string; unquoted
+values are arbitrary byte strings): the round trip holds. -/
 theorem c19_dep_text_roundtrip_partial (h : Heap) (s : Set) (hs : SetOK h s)
+    (hk : knownKeys C19AttrKeys.depAllKeys C19AttrKeys.depFlagKeys h s = true)
+    (ht : depTextOK h s = true) (ha : depQuotedAscii h s = true) :
+    ∃ h' s', depParseString h (depWrite h s) = .ok (h', s') ∧ Attr.compare h' s s' = .eq := by
+  obtain ⟨h', s', he, _, _, _, hc⟩ := dep_roundtrip_quoted h s hs hk ht ha
+  exact ⟨h', s', he, hc⟩
+
+/-- special case without any quoted value (`depPlain`), for arbitrary byte values. -/
+theorem c19_dep_text_roundtrip_plain (h : Heap) (s : Set) (hs : SetOK h s)
     (hk : knownKeys C19AttrKeys.depAllKeys C19AttrKeys.depFlagKeys h s = true)
     (hp : depPlain h s = true) :
     ∃ h' s', depParseString h (depWrite h s) = .ok (h', s') ∧ Attr.compare h' s s' = .eq := by
@@ -308,10 +317,10 @@ theorem c19_dep_text_roundtrip_partial (h : Heap) (s : Set) (hs : SetOK h s)
 
 theorem c19_dep_text_roundtrip_reachable (st : State) (hr : Reachable .d st) (i : Nat)
     (hk : knownKeys C19AttrKeys.depAllKeys C19AttrKeys.depFlagKeys st.heap (st.regs i) = true)
-    (hp : depPlain st.heap (st.regs i) = true) :
+    (ht : depTextOK st.heap (st.regs i) = true) (ha : depQuotedAscii st.heap (st.regs i) = true) :
     ∃ h' s', depParseString st.heap (depWrite st.heap (st.regs i)) = .ok (h', s') ∧
       Attr.compare h' (st.regs i) s' = .eq :=
-  c19_dep_text_roundtrip_partial _ _ ((inv_reachable .d st hr).ok i) hk hp
+  c19_dep_text_roundtrip_partial _ _ ((inv_reachable .d st hr).ok i) hk ht ha
 
 /-- `depPlain` is inside the classifier's complement. -/
 theorem depPlain_imp_depTextOK (h : Heap) (s : Set) (hp : depPlain h s = true) : depTextOK h s = true := by
@@ -327,10 +336,78 @@ theorem depPlain_imp_depTextOK (h : Heap) (s : Set) (hp : depPlain h s = true) :
     | some v => simp at hp
     | none => simp only [quotedItemsOK]; exact ih hp.2
 
-/-- non-vacuity: flags, the map-resident flag `Selector`, and valued keys with
-non-ASCII, backslash and inner-quote values. -/
+/-- non-vacuity: flags, valued keys with non-ASCII, backslash and inner-quote values
+written bare, and a last value that is written quoted (it contains spaces, a quote, a
+backslash and a tab). -/
+example :
+    let w := mk [(-2, []), (3, [0x61, 0x22, 0x5C]), (7, [0xC3, 0xA9]), (-1, []),
+                 (10, [0x61, 0x20, 0x22, 0x5C, 0x20, 0x09, 0x62])]
+    knownKeys C19AttrKeys.depAllKeys C19AttrKeys.depFlagKeys w.1 w.2 = true ∧ depTextOK w.1 w.2 = true ∧
+    depQuotedAscii w.1 w.2 = true ∧ depPlain w.1 w.2 = false := by decide
+
+/-- non-vacuity of the plain case, with the map-resident flag `Selector`. -/
 example :
     let w := mk [(-2, []), (11, []), (3, [0x61, 0x22, 0x5C]), (8, [0xC3, 0xA9]), (-1, [])]
     knownKeys C19AttrKeys.depAllKeys C19AttrKeys.depFlagKeys w.1 w.2 = true ∧ depPlain w.1 w.2 = true := by decide
 
+/-- `Selector` is written after every valued key, so a type with `Selector` and any
+quoted value is outside `depTextOK` (part of F-C19-deptest-quoted). -/
+example :
+    let w := mk [(11, []), (3, [0x61, 0x20, 0x62])]
+    knownKeys C19AttrKeys.depAllKeys C19AttrKeys.depFlagKeys w.1 w.2 = true ∧ depTextOK w.1 w.2 = false ∧
+    Res.isOk (depParseString w.1 (depWrite w.1 w.2)) = true ∧
+    (match depParseString w.1 (depWrite w.1 w.2) with
+     | .ok (h', s') => Attr.compare h' w.2 s' != .eq
+     | _ => false) = true := by decide
+
+/-! ## 7. strconv.Quote / Unquote and the single-attribute form (`ATTR:` lines) -/
+
+/-- `strconv.Unquote(strconv.Quote(v)) = v` for every ASCII string `v` (printable
+characters, quotes, backslashes, control characters — all 128 byte values < 0x80). -/
+theorem unquote_quote_ascii (v : Bytes) (hv : isAscii v = true) : unquote (quote v) = some v :=
+  unquote_quote v hv
+
+/-- `versiontest.ParseSingle(lower(key) + " " + Quote(value))` yields the set holding
+exactly that attribute, for every declared key and every ASCII value (empty, spaced,
+quoted, ... included): a flag key sets its mask bit, a valued key maps to the value. -/
+theorem c19_ver_single_roundtrip (h : Heap) (key : Int) (hkey : key ∈ C19AttrKeys.versionAllKeys)
+    (v : Bytes) (hv : isAscii v = true) :
+    ∃ h' s', versionParseSingle h (singleText key v) = .ok (h', s') ∧ SetOK h' s' ∧
+      s'.mask = (if key < 0 then key.natAbs else 0) ∧
+      ∀ k, getAttr h' s' k = if 0 ≤ key ∧ k = key.toNat then some v else none := by
+  obtain ⟨h', s', he, hok, habs⟩ := ver_single_roundtrip h key hkey v hv
+  refine ⟨h', s', he, hok, ?_, ?_⟩
+  · have := congrArg Prod.fst habs
+    simp only [absOf, stepAbs_fst] at this
+    rw [this]; simp
+  · intro k
+    have := congrFun (congrArg Prod.snd habs) k
+    simp only [absOf, stepAbs_snd] at this
+    exact this
+
+/-- the text is the one the machine op `qs` writes. -/
+example : singleText 1 [0x61, 0x20, 0x22] =
+    [0x72, 0x65, 0x64, 0x69, 0x72, 0x65, 0x63, 0x74, 0x20, 0x22, 0x61, 0x20, 0x5C, 0x22, 0x22] := by decide
+
 end DepsDev.Props.C19
+
+/- TIES (DESIGN 3.3): per theorem, the model definitions it unfolds (tied to the Go code
+by the correspondence ops named in brackets) and the generated constants it uses.
+{
+ "gen_widths|gen_keys_shape|gen_dep_flags|gen_allKeys": {"gen": ["C19AttrKeys.*"], "model": []},
+ "inv_init|inv_step|inv_reachable|frame|clone_equal|clone_independent": {
+   "model": ["Attr.setAttr", "Attr.addAttr", "Attr.clone", "AttrMachine.exec", "AttrText.depParseString", "AttrText.versionParseString", "AttrText.versionParseSingle"],
+   "ops": ["n", "s", "m", "c", "p", "q", "rt", "qs", "D", "g", "e"], "gen": ["C19AttrKeys.setAttrKeyLimit", "C19AttrKeys.attrBitsWidth"]},
+ "compare_refl|compare_swap|compare_trans|compare_transCmp|compare_congr|compare_eq_iff|reachable_compare_eq_iff": {
+   "model": ["Attr.compare", "Attr.compareVals", "Attr.keysOf", "Attr.stringsCompare"], "ops": ["k", "K"], "gen": ["C19AttrKeys.attrBitsWidth"]},
+ "rawcopy_hazard": {"model": ["Attr.rawCopy", "Attr.setAttr", "Attr.getAttr", "Attr.forEachAttr"], "ops": ["y", "s", "g", "e", "D"], "gen": []},
+ "c19_ver_text_roundtrip_false|c19_ver_text_space_witness|c19_ver_text_roundtrip_partial|c19_ver_text_roundtrip_reachable": {
+   "model": ["AttrText.versiontestString", "AttrText.versionParseString", "AttrText.fields", "AttrText.parseItems", "AttrText.dictLookup", "AttrText.keyName", "AttrMachine.knownKeys", "AttrMachine.verTextOK"],
+   "ops": ["x", "p", "rt", "cl"], "gen": ["C19AttrKeys.versionNames", "C19AttrKeys.versionAllKeys", "C19AttrKeys.versionFlagKeys", "C19Print.spacePatterns", "C19Print.lowerToAscii"]},
+ "c19_dep_text_roundtrip_false|c19_dep_text_quoted_witnesses|c19_dep_text_roundtrip_partial|c19_dep_text_roundtrip_plain|c19_dep_text_roundtrip_reachable|depPlain_imp_depTextOK": {
+   "model": ["AttrText.depWrite", "AttrText.depItems", "AttrText.depParseString", "AttrText.joinQuoted", "AttrText.fields", "AttrText.quote", "AttrText.unquote", "AttrText.parseItems", "AttrMachine.knownKeys", "AttrMachine.depTextOK", "AttrMachine.depQuotedAscii", "AttrMachine.depPlain"],
+   "ops": ["w", "p", "rt", "cl"], "gen": ["C19AttrKeys.depNames", "C19AttrKeys.depAllKeys", "C19AttrKeys.depFlagKeys", "C19Print.spacePatterns", "C19Print.printRanges", "C19Print.lowerToAscii"]},
+ "unquote_quote_ascii|c19_ver_single_roundtrip": {
+   "model": ["AttrText.quote", "AttrText.unquote", "AttrText.versionParseSingle", "AttrText.trimSpace", "AttrText.cutSpace"], "ops": ["qs", "q", "t"], "gen": ["C19AttrKeys.versionNames", "C19AttrKeys.versionAllKeys", "C19Print.spacePatterns"]}
+}
+-/
